@@ -58,10 +58,12 @@ def run(ctx):
     gen = T.Gen(rnd)
     gen.concat_equal = "concat_assert_wrong_axis" in c01_present
     gen.sparse_sorted = "sparse_unsorted_cols" in c01_present
+    gen.mix_excl = ({"Sliced"} if ("sliced_drops_imag" in c01_present or "sliced_casts_operand" in c01_present) else set()) | \
+                   ({"KronSum"} if "kronsum_inplace_dtype" in c01_present else set())
 
     def region_ok(t, dx):
         tree_cplx = any(d in T.CPLX for d in O.leaf_dts(t))
-        if "sliced_drops_imag" in c01_present and O.has_kind(t, ("Sliced",)) and dx in T.CPLX and not tree_cplx:
+        if "sliced_drops_imag" in c01_present and O.sliced_unsafe(t, dx):
             return False
         if "kronsum_inplace_dtype" in c01_present and O.has_kind(t, ("KronSum",)) and tree_cplx and dx not in T.CPLX:
             return False
@@ -105,8 +107,26 @@ def run(ctx):
         declared = rnd.random() < 0.4
         if declared:
             t = herm_tree(gen, rnd, cplx)
+        elif rnd.random() < 0.15:
+            # operators whose declared dtype is real although they hold complex data (first term real): the region where
+            # dtype-driven shortcuts and the recorded Sum/Concatenated dtype findings interact
+            n_ = rnd.randint(1, 3)
+            mk = lambda c_: gen.tree(rnd.randint(0, 1), (n_, n_), c_)
+            t = dict(k="Sum", ms=[mk(False), mk(True)] + ([mk("mix")] if rnd.random() < 0.3 else []))
+            w_ = rnd.random()
+            if w_ < 0.25:
+                t = dict(k="Prod", ms=[t, mk(False)] if rnd.random() < 0.5 else [mk(False), t])
+            elif w_ < 0.45:
+                t = dict(k="Kron", ms=[mk(False), t])
+            elif w_ < 0.6:
+                t = dict(k="BDiag", ms=[t], mu=[rnd.randint(1, 2)])
+        elif rnd.random() < 0.3:
+            kinds_ = [k for k in T.LEAF + T.COMP]
+            t = T.rooted(gen, kinds_[tries % len(kinds_)], None, None, cplx=rnd.choice([False, True, "mix"]), depth=rnd.randint(1, 2))
+            if t is None or (t["k"] in gen.mix_excl and len({d in T.CPLX for d in O.leaf_dts(t)}) > 1):
+                continue
         else:
-            t = gen.tree(rnd.randint(0, 3), None, cplx)
+            t = gen.tree(rnd.randint(0, 3), None, rnd.choice([cplx, cplx, "mix"]))
         m, n = T.shape(t)
         if m * n > 400 or T.absbound(t) * 5 * max(m, n) > 2 ** 20:
             continue
